@@ -63,30 +63,57 @@ def new_ctl(prefix='vlab-'):
 
 
 def reap_children(grace=0.0):
-    """Kill every leftover descendant of this process (managers, orphans) - except multiprocessing's
-    resource tracker: killing it makes multiprocessing relaunch it later and waitpid() on the *old* tracker
-    pid, which by then may belong to a labtech worker (the worker is then reaped behind labtech's back)."""
+    """Kill every leftover descendant of this process (managers, orphan workers).
+
+    Children started through multiprocessing are killed and *joined through their own Process objects*: reaping
+    them behind multiprocessing's back (psutil / waitpid) leaves stale entries in multiprocessing.process._children
+    whose poll() later does waitpid() on a pid that has been reused by a new labtech worker - that worker is then
+    reaped by the stale object, its own Process.is_alive() stays true forever (CPython maps ECHILD to "not started
+    yet") and labtech can never notice that it died.  The resource tracker is spared for a similar reason
+    (multiprocessing waitpid()s on the old tracker pid when it relaunches it)."""
+    import multiprocessing
+    import multiprocessing.process as mpp
+    try:
+        kids = multiprocessing.active_children()
+    except Exception:
+        kids = []
+    for p in kids:
+        try:
+            p.kill()
+        except Exception:
+            pass
+    for p in kids:
+        try:
+            p.join(3)
+        except Exception:
+            pass
+    # whatever multiprocessing still believes to be alive but is not our child any more must not poll again
+    for p in list(getattr(mpp, '_children', ())):
+        try:
+            popen = p._popen
+            if popen is not None and popen.returncode is None and not psutil.pid_exists(popen.pid):
+                popen.returncode = -9
+                mpp._children.discard(p)
+        except Exception:
+            pass
+    # descendants that are not multiprocessing children of this process (grandchildren, subprocesses)
     me = psutil.Process()
-    kids = []
+    rest = []
+    mine = {p.pid for p in kids}
     for k in me.children(recursive=True):
         try:
-            if 'resource_tracker' in ' '.join(k.cmdline()):
+            if 'resource_tracker' in ' '.join(k.cmdline()) or k.pid in mine:
                 continue
         except psutil.Error:
-            pass
-        kids.append(k)
-    for k in kids:
+            continue
+        rest.append(k)
+    for k in rest:
         try:
             k.kill()
         except psutil.Error:
             pass
-    psutil.wait_procs(kids, timeout=3)
-    # let multiprocessing forget the children it knows about (polls each one by its own pid)
-    try:
-        import multiprocessing
-        multiprocessing.active_children()
-    except Exception:
-        pass
+    if rest:
+        psutil.wait_procs(rest, timeout=3)
 
 
 def diag_process(pid, timeout=25):
@@ -94,6 +121,10 @@ def diag_process(pid, timeout=25):
     kernel wait channel + Python stack via gdb (hang diagnostics only)."""
     import subprocess
     out = {'pid': pid}
+    try:
+        out['waitpid'] = repr(os.waitpid(pid, os.WNOHANG))
+    except OSError as ex:
+        out['waitpid'] = repr(ex)
     for f in ('wchan', 'cmdline'):
         try:
             out[f] = open(f'/proc/{pid}/{f}', 'rb').read().replace(b'\0', b' ').decode('utf-8', 'replace')[:200]
